@@ -797,6 +797,31 @@ package flags
 //@   pure
 //@ assumed func (option *Option) isValueValidator() (v ValueValidator)
 //@   pure
+// The body of the search for a custom Unmarshaler (its callers keep the assumed, pure contract above): the answer
+// is the FIRST value of the chain v, &v, ... that can be handed out as an interface and implements Unmarshaler -
+// a nil pointer included (C11: a type that brings its own conversion is converted by it, whatever the field holds);
+// the chain ends at the first value that cannot be handed out or cannot be addressed.
+//@ pure func firstUnm(v reflect.Value) Unmarshaler = ite(!v.CanInterface(), nil, ite(is(v.Interface(), Unmarshaler), as(v.Interface(), Unmarshaler), ite(!v.CanAddr(), nil, firstUnm(v.Addr()))))
+// The same search for a ValueValidator; a nil pointer is first replaced by a fresh value of the pointed-to type
+// (one reflect.New of exactly that type), which is asked instead and ends the chain.
+//@ pure func nilPtr(v reflect.Value) bool = v.Kind() == reflect.Ptr && v.IsNil()
+//@ pure func firstVal(v reflect.Value) ValueValidator = ite(!v.CanInterface(), nil, ite(is(v.Interface(), ValueValidator), as(v.Interface(), ValueValidator), ite(!v.CanAddr(), nil, firstVal(v.Addr()))))
+//@ body func (option *Option) isValueValidator() (r ValueValidator)
+//@   props C02 C11 C04
+//@   requires option != nil
+//@   let n0 := ncalls(reflect.New)
+//@   loop 1 invariant unfold(firstVal(v)) && ncalls(reflect.New) == n0 && (nilPtr(option.value) ==> v == option.value) && (!nilPtr(option.value) ==> !nilPtr(v) && firstVal(v) == firstVal(option.value))
+//@   loop 1 decreases ite(v.CanAddr(), 1, 0)
+//@   ensures[C02,C11] !nilPtr(option.value) ==> unfold(firstVal(option.value)) && r == firstVal(option.value) && ncalls(reflect.New) == n0
+//@   ensures[C02,C11] nilPtr(option.value) && !option.value.CanInterface() ==> r == nil && ncalls(reflect.New) == n0
+//@   ensures[C02,C11] nilPtr(option.value) && option.value.CanInterface() ==> ncalls(reflect.New) == n0 + 1 && callarg(reflect.New, n0, 0) == option.value.Type().Elem() && r == ite(is(callres(reflect.New, n0, 0).Interface(), ValueValidator), as(callres(reflect.New, n0, 0).Interface(), ValueValidator), nil)
+//@ body func (option *Option) isUnmarshaler() (u Unmarshaler)
+//@   props C11 C01 C04
+//@   requires option != nil
+//@   loop 1 invariant unfold(firstUnm(v)) && firstUnm(v) == firstUnm(option.value)
+//@   loop 1 decreases ite(v.CanAddr(), 1, 0)
+//@   ensures[C11,C01] unfold(firstUnm(option.value)) && u == firstUnm(option.value)
+//@   assigns nothing
 //@ assumed func ValueValidator.IsValidValue(v ValueValidator, value string) (err error)
 //@   pure
 //@   ensures is(err, *Error) ==> as(err, *Error) != nil
@@ -1317,6 +1342,10 @@ package flags
 //@ assumed func reflect.Type.Key(t reflect.Type) (k reflect.Type)
 //@   pure
 //@ assumed func reflect.New(t reflect.Type) (v reflect.Value)
+//@   traced
+// (library fact: New returns a non-nil pointer that is not addressable)
+//@   ensures !v.CanAddr()
+//@   ensures v.Kind() == reflect.Ptr && !v.IsNil()
 //@ assumed func reflect.Indirect(v reflect.Value) (r reflect.Value)
 //@   pure
 //@ assumed func reflect.Append(s reflect.Value, x reflect.Value) (r reflect.Value)
@@ -1810,6 +1839,9 @@ package flags
 //@   pure
 //@ assumed func reflect.Value.Addr(v reflect.Value) (r reflect.Value)
 //@   pure
+// (library fact: the pointer Addr returns is itself not addressable, and it is a non-nil pointer)
+//@   ensures !r.CanAddr()
+//@   ensures r.Kind() == reflect.Ptr && !r.IsNil()
 //@ func (c *completion) completeValue(value reflect.Value, prefix string, match string) (r []Completion)
 //@   props C18 C04
 //@   traced
